@@ -220,6 +220,37 @@ m('C14', 'manually_drop_removed', 'src/core/map_col.rs', """            let coll
 m('C14', 'join_result_ignored', 'src/core/runner.rs', """                .map(|x| x.join().expect("Failed to join thread"))""", """                .filter_map(|x| x.join().ok())""", 'S2')
 m('C14', 'catch_unwind_in_task', 'src/core/map_fil_cnt.rs', '1 => iter.values().map(&map).filter(&filter).count(),', '1 => std::panic::catch_unwind(std::panic::AssertUnwindSafe(|| iter.values().map(&map).filter(&filter).count())).unwrap_or(0),', 'C14-PROPAGATE')
 
+m('C14', 'lag_waits_for_first_pull', 'src/core/runner.rs', """                lag();
+                match runner.next_chunk_size(num_spawned, iter.has_more()) {""", """                {
+                    let before = iter.try_get_len();
+                    while before.is_some() && iter.try_get_len() == before {
+                        std::thread::yield_now();
+                    }
+                }
+                match runner.next_chunk_size(num_spawned, iter.has_more()) {""", 'C14-NOWAIT')
+m('C14', 'lag_waits_until_drained_flag', 'src/core/runner.rs', """                lag();
+                match runner.next_chunk_size(threads.len(), iter.has_more()) {""", """                loop {
+                    let done = match iter.has_more() {
+                        HasMore::No => true,
+                        HasMore::Maybe => true,
+                        HasMore::Yes(n) => n < chunk,
+                    };
+                    if done {
+                        break;
+                    }
+                    std::thread::yield_now();
+                }
+                match runner.next_chunk_size(threads.len(), iter.has_more()) {""", 'C14-NOWAIT')
+m('C14', 'task_parks_after_work', 'src/core/map_fil_cnt.rs', '1 => iter.values().map(&map).filter(&filter).count(),', '1 => { let n = iter.values().map(&map).filter(&filter).count(); if n == usize::MAX { std::thread::park(); } n }', 'C14-NOWAIT')
+b('C14', 'lag_bounded_poll', 'src/core/runner.rs', """                lag();
+                match runner.next_chunk_size(num_spawned, iter.has_more()) {""", """                for _ in 0..64 {
+                    if let HasMore::No = iter.has_more() {
+                        break;
+                    }
+                    std::thread::yield_now();
+                }
+                match runner.next_chunk_size(num_spawned, iter.has_more()) {""")
+
 # ------------------------------------------------------------------------------------------ C16
 m('C16', 'eager_map_in_map', 'src/par/par_map.rs', """        ParMapFilter::new(self.iter, self.params, self.map, filter)""", """        if let Some(x) = self.iter.next() {
             let y = (self.map)(x);
@@ -529,6 +560,15 @@ m('C14', 'user_filter_in_merge_window', 'src/core/map_fil_col.rs', """pub fn par
     }""", 'C14-WINDOW')
 
 # ------------------------------------------------------------------------------------------ C15
+m('C15', 'task_buffer_sized_by_chunk', 'src/core/map_fil_col_x.rs', """            let mut collected = vec![];
+            while let Some(chunk) = iter.next_chunk_x(c) {""", """            let mut collected = Vec::with_capacity(c);
+            while let Some(chunk) = iter.next_chunk_x(c) {""", 'C15-ALLOC')
+m('C15', 'task_reserves_chunk_each_pull', 'src/core/flatmap_fil_col_x.rs', """            let mut collected = vec![];""", """            let mut collected = vec![];
+            collected.reserve(c);""", 'C15-ALLOC')
+m('C15', 'handles_sized_by_chunk_times_threads', 'src/core/runner.rs', 'let mut threads = Vec::with_capacity(runner.max_num_threads);', 'let mut threads = Vec::with_capacity(runner.max_num_threads.saturating_mul(runner.chunk_size.inner()));', 'C15-ALLOC')
+b('C15', 'task_buffer_sized_by_min_of_chunk_and_len', 'src/core/map_fil_col_x.rs', """            let mut collected = vec![];
+            while let Some(chunk) = iter.next_chunk_x(c) {""", """            let mut collected = Vec::with_capacity(c.min(iter.try_get_len().unwrap_or(1024)));
+            while let Some(chunk) = iter.next_chunk_x(c) {""")
 m('C15', 'no_clamp_to_one', 'src/core/runner.rs', 'let max_num_threads = num_threads::calc_num_threads(input_len, params.num_threads).max(1);', 'let max_num_threads = num_threads::calc_num_threads(input_len, params.num_threads);', 'C15')
 m('C15', 'min_chunk_zero_len_arm_removed', 'src/core/runner_settings/chunk_size.rs', """        None => chunk_size,
         Some(0) => 1,
